@@ -63,6 +63,8 @@ struct SrcM {
     int ufd = -1;              // index of the user descriptor
     uint64_t reg_gseq = 0;
     uint64_t removed_gseq = 0; // kept in 'recent' after removal until the next quiescent point
+    uint64_t delivered_gseq = 0; // last time an event of this source was handed to the module
+    int missed_polls = 0;        // consecutive polls that reported it without a delivery
 };
 
 struct EvtObs {
@@ -119,6 +121,7 @@ struct SendRec {
     std::vector<int> overflow;           // eligible slots whose mailbox was full (no obligation)
     std::map<int, int> delivered;        // slot -> times delivered (outside unstash)
     std::set<int> dead;                  // slot: recipient left RUNNING/PAUSED (or PAUSED at loop end) before delivery
+    std::set<int> oneshot_matched;       // slot: the matching subscription was a one-shot one (may legitimately be discarded)
     std::set<int> unknown;               // slot: recipient was not RUNNING at some point of the final flush: the message may or may not have been discarded
 };
 
@@ -160,6 +163,8 @@ struct Slot {
     uint64_t c08_pill_gseq = 0, c08_pill_effect_gseq = 0, c08_last_reset_gseq = 0;
     uint64_t pending_pill_first_gseq = 0;
     bool pill_overflowed = false;
+    long pending = 0;                 // messages accepted for this module and still in its mailbox (mirror)
+    bool pending_exact = true;        // false once something we cannot count may be in the mailbox (system notifications, flush-time uncertainty)
     bool pill_wildcard = false;       // a pill was sent to it by a final-flush handler: whether it is still pending is unknown
     std::set<std::tuple<int, long, long>> c09_model;
     // mirrors
@@ -235,6 +240,7 @@ struct World {
     // bookkeeping for quiescent-point oracles
     uint64_t last_quiescent_gseq = 0;
     uint64_t last_real_poll_gseq = 0;
+    size_t batches_seen = 0;
     uint64_t quiescent_points = 0;
     uint64_t reg_dereg_since_quiescent = 0;
     size_t batches_at_last_quiescent = 0;
